@@ -97,7 +97,8 @@ func (w *world) randomCfg(r *c.Rng) cfgT {
 
 func (w *world) applyCfg(ctx sdk.Context, cf cfgT) {
 	k := w.tApp.GetHardKeeper()
-	k.SetParams(ctx, hardtypes.NewParams(cf.mms, cf.minBorrow))
+	hp := hardtypes.NewParams(cf.mms, cf.minBorrow)
+	kapp.SetParams(w.tApp, ctx, "hard", &hp, func() { k.SetParams(ctx, hp) })
 	for _, mm := range cf.mms {
 		k.SetMoneyMarket(ctx, mm.Denom, mm)
 	}
@@ -1062,7 +1063,7 @@ func (s *seqT) setParams(mms []*hardtypes.MoneyMarket, minBorrow sdk.Dec, what s
 	s.sigNote = what
 	s.out.Note("gov:" + what)
 	s.emit("params", 0, 0, nil, "-", -1, func(cx sdk.Context) error {
-		s.w.tApp.GetHardKeeper().SetParams(cx, params)
+		kapp.SetParams(s.w.tApp, cx, "hard", &params, func() { s.w.tApp.GetHardKeeper().SetParams(cx, params) })
 		return nil
 	})
 	s.beginBlock(gap)
